@@ -127,7 +127,7 @@ def run_c18(tier, seed):
         return True
 
     ops = ["assign_nested_larger", "set_scalar", "set_renamed", "set_array_elem", "set_string", "assign_nested", "assign_nested_nested_write", "assign_ref_same", "assign_ref_other",
-           "copy", "move", "move_nested", "move_with_ref", "set_none_ref", "move_nested_of_rebuilt"]
+           "copy", "move", "move_nested", "move_with_ref", "set_none_ref", "move_nested_of_rebuilt", "grow_then_write_arrays"]
     L = 2 if tier == "quick" else 3
     hists = list(itertools.product(ops, repeat=L))
     rnd.shuffle(hists)
@@ -154,6 +154,24 @@ def run_c18(tier, seed):
                 elif op == "set_array_elem":
                     c.b.m[1, 2] = rnd.randrange(100)
                     c.b.alpha.v[0] = rnd.random()
+                elif op == "grow_then_write_arrays":
+                    # array attributes looked at before the buffer is enlarged (and its storage replaced) still mirror the buffer afterwards:
+                    # a write through the attribute reaches the buffer, a write to the buffer shows in the attribute
+                    c.b.m, c.b.alpha.v  # noqa  (touch)
+                    store0 = c._buffer.buffer
+                    for _ in range(3):
+                        c._buffer.allocate(c._buffer.capacity + 8)
+                    if c._buffer.buffer is store0:
+                        bad("growth:storage-not-replaced", history=done)
+                    nv, nw = rnd.randrange(1, 100), rnd.random() + 1.0
+                    c.b.m[1, 2] = nv
+                    c.b.alpha.v[0] = nw
+                    if c._xobject.b.m[1, 2] != nv or c._xobject.b.a.v[0] != nw:
+                        bad("array-attribute:write-after-growth-not-in-buffer", history=done)
+                    c._xobject.b.m[0, 1] = nv + 1
+                    c._xobject.b.a.v[1] = nw + 1.0
+                    if c.b.m[0, 1] != nv + 1 or c.b.alpha.v[1] != nw + 1.0:
+                        bad("array-attribute:buffer-write-after-growth-not-visible", history=done)
                 elif op == "set_string":
                     c.b.alpha.name = rnd.choice(["", "z", "yy"])[: len(c.b.alpha.name)]
                 elif op in ("assign_nested", "assign_nested_nested_write"):
@@ -289,6 +307,29 @@ def run_c19(tier, seed):
         if len(violations) < 400:
             violations.append({"case_key": key, **kw})
 
+    def dirty_buffer(n=512):
+        # memory that was used before: a region filled with a pattern and given back to the allocator
+        buf = X.ContextCpu().new_buffer(n)
+        o = buf.allocate(n - 16)
+        buf.update_from_buffer(o, b"\xab" * (n - 16))
+        buf.free(o, n - 16)
+        return buf
+
+    # ---- rebuilt in memory that was used before: omitted fields (equal to their defaults) must come back as the defaults
+    HP = type(grammar.uniq("JP"), (X.HybridClass,), {"_xofields": {"a": X.Float64[4], "n": X.Int32[3], "k": X.Int64, "s": X.Float64, "m": X.Int16[2, 2],
+                                                                 "d": X.Field(X.Float64[2], default=[1.0, 2.0])}})
+    for av, nv, kv, sv, mv, dv in (([0.0] * 4, [0] * 3, 0, 0.0, [[0, 0], [0, 0]], [1.0, 2.0]), ([1.0, 0.0, 0.0, 2.0], [0, 0, 5], 3, 0.0, [[0, 1], [0, 0]], [0.0, 0.0]),
+                                   ([0.0] * 4, [1, 2, 3], 0, 2.5, [[0, 0], [0, 0]], [1.0, 2.0])):
+        evals += 1
+        distinct.add(("dirty", repr((av, nv, kv, sv))))
+        try:
+            h = HP(a=av, n=nv, k=kv, s=sv, m=mv, d=dv)
+            dct = h.to_dict()
+            h2 = HP.from_dict({k: v for k, v in dct.items() if k != "__class__"}, _buffer=dirty_buffer())
+            if not hyb_eq(X, h, h2):
+                bad("dict:value:rebuilt-in-used-memory", cls="HP", original=repr(attr_value(X, h))[:200], rebuilt=repr(attr_value(X, h2))[:200], dictionary=repr(dct)[:200])
+        except Exception as e:  # noqa
+            bad(f"dict:raised:rebuilt-in-used-memory:{type(e).__name__}", problem=str(e)[:200])
     # ---- hybrid dictionaries
     for rep in range(20 if tier == "quick" else 200):
         a = mk_a(HA, rnd)
@@ -308,6 +349,12 @@ def run_c19(tier, seed):
                 continue
             if len(samples) < 2 and h is d:
                 samples.append({"class": type(h).__name__, "dictionary": repr(dct)[:300]})
+            try:
+                h3 = type(h).from_dict({k: v for k, v in dct.items() if k != "__class__"}, _buffer=dirty_buffer())
+                if hyb_eq(X, h, h2) and not hyb_eq(X, h, h3):
+                    bad("dict:value:rebuilt-in-used-memory", cls=type(h).__name__, original=repr(attr_value(X, h))[:200], rebuilt=repr(attr_value(X, h3))[:200], dictionary=repr(dct)[:200])
+            except Exception as e:  # noqa
+                bad(f"dict:raised:rebuilt-in-used-memory:{type(e).__name__}", problem=str(e)[:200])
             if not hyb_eq(X, h, h2):
                 nested_renamed = any(hasattr(f.ftype, "_DressingClass") and f.ftype._DressingClass._rename for f in type(h)._XoStruct._fields)
                 bad(f"dict:value:{'nested-hybrid-with-renamed-field' if nested_renamed else 'plain'}", cls=type(h).__name__, original=repr(attr_value(X, h))[:200], rebuilt=repr(attr_value(X, h2))[:200], dictionary=repr(dct)[:200])
